@@ -107,11 +107,13 @@ class Super:
                 for v in e['vars']:
                     if 'scope_guard' in ((v.get('type') or '') + (v.get('wtype') or '')) and v['var'] in lam_vars and lam_vars[v['var']] in self.F.lambdas:
                         guards[v['var']] = [gnode, self.F.lambdas[lam_vars[v['var']]], set()]
+        guard_resets = {}
         if guards:
             for gnode in order:
                 e = G.ev[gnode]
                 if e.get('k') == 'call' and e['callee'].get('name') in ('release', 'reset') and e['callee'].get('base') in guards:
                     guards[e['callee']['base']][2].add(gnode)
+                    if e['callee'].get('name') == 'reset': guard_resets[gnode] = guards[e['callee']['base']][1]   # reset(): run now, then disarm
         for gnode in order:
             e = G.ev[gnode]
             n = ids[gnode]
@@ -152,7 +154,8 @@ class Super:
                 continue        # this return cannot happen in the specialised copy
             callees = []
             if e.get('k') == 'call' and depth < self.maxdepth:
-                callees = self.resolve(f, e, binds, lam_by_line, lam_vars)
+                if gnode in guard_resets: callees = [(guard_resets[gnode], {})]
+                else: callees = self.resolve(f, e, binds, lam_by_line, lam_vars)
             callees = [(g, b) for g, b in callees if self._key(g) not in stack]
             if callees:
                 test = self._result_test(G, gnode, e, binds, lam_by_line, lam_vars, depth) if len(callees) == 1 else None
